@@ -22,10 +22,13 @@ import (
 // syncer as their gossip watcher:
 //
 //  (i)  table == f(view): whenever P's gossip view of O shows proxy_addr and
-//       admin_addr, P's routing table has O with those addresses and exactly
-//       the endpoint counts of the view's live endpoint:* entries; when the
-//       view lacks an address the node is not in the table (it is pending).
-//       This holds whether or not P is caught up, so it is independent of F3.
+//       admin_addr, P's routing table has O; whenever the table has O its
+//       addresses are O's true (immutable) addresses and its endpoint counts
+//       are exactly those of the view's live endpoint:* entries. This holds
+//       whether or not P is caught up, so it is independent of F3. (The view
+//       may transiently lack an address while the node is in the table, see
+//       below; the converse - a view with both addresses and no table entry -
+//       is a violation.)
 //  (ii) caught up => table == owner: when the view's version equals O's
 //       version, the table entry equals what O's own cluster state holds
 //       (addresses, endpoint counts). Pairs tainted by F3 are known findings.
@@ -139,12 +142,20 @@ func (m *C04Monitor) AfterStep(s *Sim, a *Action) {
 				} else {
 					s.Stats["left_while_pending"]++
 				}
-			case !complete && inTable:
-				// only possible after a gap (F3): addresses were known to a previous incarnation
-				s.Fail("table-without-addresses", "%s: the routing table lists the node although the view lacks an address\n  view: %s", where, stateString(st))
 			case inTable:
-				if cn.ProxyAddr != proxy || cn.AdminAddr != admin {
-					s.Fail("address-mismatch", "%s: table has proxy=%q admin=%q, view has proxy=%q admin=%q", where, cn.ProxyAddr, cn.AdminAddr, proxy, admin)
+				// The view may transiently lack an address although the node is in the
+				// table: a relay that is already past the owner's *next* re-versioning
+				// hands over the previous compaction marker (which drops the old address
+				// entries) before the re-versioned ones. The addresses are immutable, so
+				// the table must simply hold the owner's true addresses, and agree with
+				// the view wherever the view shows them.
+				if !complete {
+					s.Stats["in_table_while_view_lacks_address"]++
+				}
+				truth := o.Cluster.LocalNode()
+				if cn.ProxyAddr != truth.ProxyAddr || cn.AdminAddr != truth.AdminAddr ||
+					(proxy != "" && cn.ProxyAddr != proxy) || (admin != "" && cn.AdminAddr != admin) {
+					s.Fail("address-mismatch", "%s: table has proxy=%q admin=%q, view has proxy=%q admin=%q, owner has %q %q", where, cn.ProxyAddr, cn.AdminAddr, proxy, admin, truth.ProxyAddr, truth.AdminAddr)
 				}
 				if !sameEps(cn.Endpoints, eps) {
 					s.Fail("table-differs-from-view", "%s: routing table endpoints %s but the gossip view advertises %s\n  view: %s", where, epString(cn.Endpoints), epString(eps), stateString(st))
